@@ -254,3 +254,115 @@ def newtonEulerTau (M : SModel α) (st : State α) (fext : Nat → SV α) : List
 
 end field
 end Rbdl.Spec
+
+/-! ### specifications of the kinematic queries, the inertia matrix and whole-body quantities -/
+namespace Rbdl.Spec
+open Lean.Grind Rbdl
+section
+variable {α : Type} [Field α] [DecidableEq α]
+
+/-- kinematics of the node with the given API id -/
+def nodeKin (M : SModel α) (st : State α) (id : Nat) : NodeKin α :=
+  let kin := kinTable M st
+  match (M.nodes.zip kin).find? (fun p => p.1.apiId == id) with
+  | some p => p.2
+  | none => ⟨M3.one, M3.zero, M3.zero, V3.zero, V3.zero, V3.zero⟩
+
+def bodyToBase (M : SModel α) (st : State α) (id : Nat) (x : V3 α) : V3 α := (nodeKin M st id).pt x
+def baseToBody (M : SModel α) (st : State α) (id : Nat) (x : V3 α) : V3 α :=
+  let k := nodeKin M st id
+  k.R.transpose * (x - k.p)
+/-- the matrix mapping base coordinates to body coordinates -/
+def orientation (M : SModel α) (st : State α) (id : Nat) : M3 α := (nodeKin M st id).R.transpose
+def pointVelocity (M : SModel α) (st : State α) (id : Nat) (x : V3 α) : V3 α := (nodeKin M st id).ptd x
+def pointVelocity6D (M : SModel α) (st : State α) (id : Nat) (x : V3 α) : SV α :=
+  let k := nodeKin M st id
+  ⟨k.omega, k.ptd x⟩
+def pointAcceleration (M : SModel α) (st : State α) (id : Nat) (x : V3 α) : V3 α := (nodeKin M st id).ptdd x
+def pointAcceleration6D (M : SModel α) (st : State α) (id : Nat) (x : V3 α) : SV α :=
+  let k := nodeKin M st id
+  ⟨k.omegaDot, k.ptdd x⟩
+
+/-- column `j` of the 6-D point Jacobian: partial derivative w.r.t. generalized velocity `j` -/
+def pointJacobian6DCol (M : SModel α) (st : State α) (id : Nat) (x : V3 α) (j : Nat) : SV α :=
+  pointVelocity6D M (unitVel st j) id x
+/-- column `j` of the body spatial Jacobian: body-frame angular and linear velocity of the origin -/
+def bodySpatialJacobianCol (M : SModel α) (st : State α) (id : Nat) (j : Nat) : SV α :=
+  let k := nodeKin M (unitVel st j) id
+  ⟨k.R.transpose * k.omega, k.R.transpose * k.pd⟩
+
+/-- rows-of-columns layout helper: `rows × nv` matrix as a row-major list -/
+def matOfCols (rows : Nat) (cols : List (List α)) : List α :=
+  (List.range rows).flatMap (fun r => cols.map (fun c => c.getD r 0))
+
+def pointJacobian (M : SModel α) (st : State α) (id : Nat) (x : V3 α) : List α :=
+  matOfCols 3 ((List.range M.nv).map (fun j => V3.toList (pointJacobian6DCol M st id x j).v))
+def pointJacobian6D (M : SModel α) (st : State α) (id : Nat) (x : V3 α) : List α :=
+  matOfCols 6 ((List.range M.nv).map (fun j => SV.toList (pointJacobian6DCol M st id x j)))
+def bodySpatialJacobian (M : SModel α) (st : State α) (id : Nat) : List α :=
+  matOfCols 6 ((List.range M.nv).map (fun j => SV.toList (bodySpatialJacobianCol M st id j)))
+
+/-- per-body partial velocities `(∂ċ/∂q̇_j, ∂ω/∂q̇_j)` of all bodies carrying mass -/
+def partials (M : SModel α) (st : State α) (j : Nat) : List (V3 α × V3 α) :=
+  let kj := kinTable M (unitVel st j)
+  (M.nodes.zip kj).filterMap (fun p => if p.1.hasBody then some (p.2.ptd p.1.com, p.2.omega) else none)
+
+/-- joint-space inertia matrix from its definition `H = Σ_bodies Jᵀ M J` -/
+def inertiaMatrix (M : SModel α) (st : State α) : List α :=
+  let kin := kinTable M st
+  let bodies := (M.nodes.zip kin).filter (fun p => p.1.hasBody)
+  let nv := M.nv
+  let parts := (List.range nv).map (fun j => partials M st j)
+  (List.range nv).flatMap (fun j => (List.range nv).map (fun k =>
+    let pj := parts.getD j []
+    let pk := parts.getD k []
+    ((bodies.zip pj).zip pk).foldl (fun acc x =>
+      let (((nd, kn), a), b) := x
+      let Iw := kn.R * nd.inertia * kn.R.transpose
+      acc + nd.mass * a.1.dot b.1 + a.2.dot (Iw * b.2)) 0))
+
+def kineticEnergy (M : SModel α) (st : State α) : α :=
+  let kin := kinTable M st
+  (M.nodes.zip kin).foldl (fun acc p =>
+    let (nd, k) := p
+    if !nd.hasBody then acc else
+    let cd := k.ptd nd.com
+    let Iw := k.R * nd.inertia * k.R.transpose
+    acc + (nd.mass * cd.dot cd + k.omega.dot (Iw * k.omega)) / 2) 0
+
+/-- bodies that take part in the whole-body quantities: everything that carries mass and moves
+    with some joint (a body rigidly attached to the base is part of the environment) -/
+def SNode.counts (nd : SNode α) : Bool := nd.hasBody && nd.movableId != 0
+
+def totalMass (M : SModel α) : α := M.nodes.foldl (fun acc nd => if nd.counts then acc + nd.mass else acc) 0
+
+/-- `Σ m_i f(i)` over bodies -/
+def massSum (M : SModel α) (st : State α) (f : SNode α → NodeKin α → V3 α) : V3 α :=
+  let kin := kinTable M st
+  (M.nodes.zip kin).foldl (fun acc p => if p.1.counts then acc + p.1.mass * f p.1 p.2 else acc) V3.zero
+
+def com (M : SModel α) (st : State α) : V3 α := (1 / totalMass M) * massSum M st (fun nd k => k.pt nd.com)
+def comVelocity (M : SModel α) (st : State α) : V3 α := (1 / totalMass M) * massSum M st (fun nd k => k.ptd nd.com)
+def comAcceleration (M : SModel α) (st : State α) : V3 α := (1 / totalMass M) * massSum M st (fun nd k => k.ptdd nd.com)
+
+def potentialEnergy (M : SModel α) (st : State α) : α :=
+  -(totalMass M * M.gravity.dot (com M st))
+
+/-- angular momentum about the centre of mass and its time derivative -/
+def angularMomentum (M : SModel α) (st : State α) : V3 α × V3 α :=
+  let kin := kinTable M st
+  let C := com M st
+  let Cd := comVelocity M st
+  (M.nodes.zip kin).foldl (fun acc p =>
+    let (nd, k) := p
+    if !nd.counts then acc else
+    let c := k.pt nd.com; let cd := k.ptd nd.com; let cdd := k.ptdd nd.com
+    let Iw := k.R * nd.inertia * k.R.transpose
+    let Iwd := k.Rd * nd.inertia * k.R.transpose + k.R * nd.inertia * k.Rd.transpose
+    let L := (c - C).cross (nd.mass * cd) + Iw * k.omega
+    let Ld := (cd - Cd).cross (nd.mass * cd) + (c - C).cross (nd.mass * cdd)
+              + Iwd * k.omega + Iw * k.omegaDot
+    (acc.1 + L, acc.2 + Ld)) (V3.zero, V3.zero)
+
+end
+end Rbdl.Spec
